@@ -883,7 +883,9 @@ func (fr *Frame) convert(st *State, x *ssa.Convert) {
 		n := fr.define(x, s)
 		vc.sc.Def(Eq(sx("bstr", n), v))
 	case fs == "Slice" && ts == "String":
-		fr.define(x, sx("bstr", v))
+		n := fr.define(x, sx("bstr", v))
+		// the string has as many bytes as the slice it is made from
+		vc.sc.Assume(st.reach, Eq(sx("str.len", n), sx("s-len", v)))
 	case fs == "Int" && ts == "String":
 		vc.sc.DeclFun("rune_str", []string{"Int"}, "String")
 		fr.define(x, sx("rune_str", v))
